@@ -178,6 +178,22 @@ CHECKS["C18"] = dict(
     technique="Coq proof (order lemmas over Q) + evaluation correspondence by vm_compute + dense sweeps",
     design="4/C18")
 
+CHECKS["C20"] = dict(
+    text="Every file under srlife/data is translated to Coq tables on every run and the theorems are re-proved on them: all "
+         "tabulated conductivities, diffusivities, film coefficients, ceramic strengths, moduli and fatigue parameters have "
+         "strictly increasing abscissae and positive values, hence positive interpolants over the tabulated range and exact "
+         "values at table points; every interaction envelope has its knee inside the unit square and passes through (0,1), "
+         "the knee and (1,0); for every shipped rupture correlation the exponent polynomial is positive and strictly "
+         "decreasing in log-stress on 1-1000 MPa (so rupture time decreases with stress and with temperature); every fatigue "
+         "exponent polynomial is strictly decreasing from its cut-off to a strain range of 5e-2 (interval arithmetic + mean "
+         "value theorem); curve selection and cut-off clamp; XML dictionary round trip.  Tied by loading and sweeping every "
+         "variant through the documented loaders and by XML round trips of shipped and random models.",
+    note="Trusted: the data translator; Coq-Interval (uses the native integer primitives listed by Print Assumptions) and "
+         "Coquelicot; monotonicity of log10 and 10**x; scipy interp1d; float(repr(x)) == x.  NEML deformation models are only "
+         "loaded, not analysed.",
+    technique="Coq proof on regenerated data (vm_compute, Coq-Interval, MVT) + load/sweep/round-trip runs of every variant",
+    design="4/C20")
+
 NOT_YET = {}
 
 def main():
